@@ -67,7 +67,7 @@ def value(e, env: dict) -> Fraction:
         for a in e.args:
             r *= value(a, env)
         return r
-    if isinstance(e, sp.Pow) and e.exp.is_Integer and e.exp >= 0:
+    if isinstance(e, sp.Pow) and e.exp.is_Integer:
         return value(e.base, env) ** int(e.exp)
     if isinstance(e, (AppliedUndef, sp.Indexed)):
         args = e.args if isinstance(e, AppliedUndef) else e.indices
@@ -89,7 +89,10 @@ def same_value(a, b, envs) -> bool:
             return True
     except Exception:  # noqa: BLE001, S110
         pass
-    return all(value(a, env) == value(b, env) for env in envs)
+    try:
+        return all(value(a, env) == value(b, env) for env in envs)
+    except (ValueError, ZeroDivisionError):
+        return True  # not decidable exactly (non-polynomial unfolded node, pole): never a false alarm
 
 
 def random_envs(rng, symbols, n=3):
@@ -106,7 +109,21 @@ def check_term(real, rng, subs_requests, all_symbols):  # noqa: C901, PLR0912
     envs = random_envs(rng, all_symbols)
     repeated = has_repeated_index(real)
     done = real.doit()
-    expl = explicit(real)
+    expl = explicit(real).doit()  # (.doit(): unfolds unevaluated nodes that enclose or occur in a sum)
+    # second call == first call (SymPy caches by equality), round trips leave the sum intact
+    again = real.doit()
+    if again != done:
+        fails.append({"class": "doit gives different results on repeated calls", "expr": sp.srepr(real), "first": str(done)[:300], "second": str(again)[:300]})
+    import copy
+    import pickle  # noqa: S403
+
+    for how, fn in (("pickle", lambda e: pickle.loads(pickle.dumps(e))), ("copy.deepcopy", copy.deepcopy), ("copy.copy", copy.copy)):  # noqa: S301
+        try:
+            back = fn(real)
+        except Exception as exc:  # noqa: BLE001
+            back = f"{type(exc).__name__}: {exc}"
+        if back != real or sp.srepr(back) != sp.srepr(real):
+            fails.append({"class": "round trip of a pool sum is not the identity", "how": how, "expr": sp.srepr(real), "result": str(back)[:300]})
     # (1) denotation
     if pool_sums(done):
         fails.append({"class": "doit leaves a PoolSum", "expr": sp.srepr(real), "doit": str(done)})
@@ -127,7 +144,9 @@ def check_term(real, rng, subs_requests, all_symbols):  # noqa: C901, PLR0912
         if has_repeated_index(ps):
             continue
         cl = ps.cleanup()
-        v_ps, v_cl = explicit(ps), explicit(cl)
+        if ps.cleanup() != cl:
+            fails.append({"class": "cleanup gives different results on repeated calls", "expr": sp.srepr(ps)})
+        v_ps, v_cl = explicit(ps).doit(), explicit(cl).doit()
         if not same_value(v_ps, v_cl, envs):
             body_free = ps.expression.free_symbols
             mult = 1
@@ -172,6 +191,36 @@ def check_term(real, rng, subs_requests, all_symbols):  # noqa: C901, PLR0912
             notes.append({"excluded": "substituted term mentions a summation index (capture)", "expr": str(real)[:120],
                           "old": str(x), "new": str(a), "result": str(real.subs(x, a))[:160]})
     return fails, notes
+
+
+def float_pool_cases(rng, n=6):
+    """Pools holding SymPy Floats / Python floats / ints mixed (outside the model's rational pools:
+    oracle only, compared with a tolerance)."""
+    import sympy as sp
+
+    from ampform.sympy import PoolSum
+
+    i, j, x = sp.symbols("i j x")
+    f = sp.Function("f")
+    fails = []
+    for _ in range(n):
+        p1 = [rng.choice([0.5, -0.5, 1, sp.Float(1.5), sp.Rational(1, 2), 2.0, sp.Integer(0)]) for _ in range(rng.randint(1, 3))]
+        p2 = [rng.choice([1.0, sp.Float(-1), 2, sp.Rational(3, 2)]) for _ in range(rng.randint(1, 3))]
+        e = PoolSum(i**2 * x + i * j + 3 * j, (i, p1), (j, p2))
+        want = sum((sp.sympify(a) ** 2 * x + sp.sympify(a) * sp.sympify(b) + 3 * sp.sympify(b) for a in p1 for b in p2), sp.Integer(0))
+        got = e.doit()
+        diff = sp.expand(got - want)
+        coeffs = [abs(complex(c)) for c in sp.Poly(diff, x).all_coeffs()] if diff != 0 else [0.0]
+        if max(coeffs) > 1e-12:
+            fails.append({"class": "doit != explicit sum over the cartesian product", "expr": sp.srepr(e), "doit": str(got), "explicit": str(want),
+                          "note": "pool with Floats/ints/Rationals mixed"})
+        if e.free_symbols != {x}:
+            fails.append({"class": "free_symbols != free(summand) - indices", "expr": sp.srepr(e), "free_symbols": sorted(map(str, e.free_symbols))})
+        fe = PoolSum(f(i) * x, (i, p1))
+        if fe.subs(x, 2).doit() != fe.doit().subs(x, 2) or fe.subs(i, 7) != fe:
+            fails.append({"class": "subs of a free symbol does not commute with evaluation", "expr": sp.srepr(fe), "old": "x", "new": "2",
+                          "note": "pool with Floats/ints/Rationals mixed"})
+    return fails
 
 
 def witness_bound():
